@@ -3,6 +3,7 @@ pub mod alloc;
 pub mod choice;
 pub mod elfw;
 pub mod filegen;
+pub mod inputs;
 pub mod io;
 pub mod refs;
 pub mod run;
